@@ -46,7 +46,8 @@ Readings (weakest reasonable):
     Monotonic growth inside the chain is not demanded.
   * deleting a record that is absent / adding one that is present (IXFR), duplicates (AXFR),
     and records outside the zone: either (lenient continuation: ignore / idempotent).
-    With strict_delete=True (used for the RRset-grouped route only) a deletion of a record
+    With strict_delete=True (what C13 uses on every route; thorough tier silent on the unchanged
+    tree) a deletion of a record
     that the zone does not hold and that this stream has not deleted before is invalid: such
     a difference sequence was computed from other content than the client's version, i.e. it
     is "based on a different" version.
